@@ -464,6 +464,78 @@ def _self_protecting(g, th):
     return True
 
 
+# ---------------------------------------------------------------------------
+# R14.1
+
+VALIDATION_EXC = ("invalid_argument", "length_error", "domain_error", "logic_error", "out_of_range")
+DOMAIN_CLASSES = ("Polyhedron", "C_Polyhedron", "NNC_Polyhedron", "Grid", "BD_Shape", "Octagonal_Shape", "Box",
+                  "Pointset_Powerset", "Powerset", "Partially_Reduced_Product", "MIP_Problem", "PIP_Problem",
+                  "Linear_Expression", "Constraint_System", "Generator_System", "Congruence_System",
+                  "Grid_Generator_System", "Constraint", "Generator", "Congruence", "Grid_Generator", "Variables_Set")
+
+
+def units_validate():
+    us = [F.lib_unit(n) for n in F.library_sources()]
+    us.append(F.driver_unit("domains.cc", file_re=r"_(inlines|templates)\.hh"))
+    return us
+
+
+def _is_validation_throw(f, n):
+    if n["k"] == "throw" and any(e in n.get("t", "") for e in VALIDATION_EXC):
+        return True
+    if n["k"] in ("call", "mcall") and f.call_name(n).startswith("throw_"):
+        return True
+    return False
+
+
+def r14_1(ctx):
+    rid = "R14.1"
+    ctx.rule(rid, "validate before mutate: in every public non-const member of the domains and solvers, no write to the receiver (field assignment, non-const member call on *this or on a field, receiver passed by non-const reference) lies on a path to a validation throw (std::invalid_argument / length_error / domain_error / logic_error or a throw_* helper) of the same function")
+    fx = ctx.extract(units_validate())
+    n = 0
+    seen = set()
+    for f in fx.functions:
+        if f.flag("pattern") or not f.cfg or f.kind != "method" or f.flag("const") or f.flag("static"):
+            continue
+        if f.clsn not in DOMAIN_CLASSES or f.j.get("access") != "public":
+            continue
+        key = (f.relfile, f.line)
+        if key in seen:
+            continue
+        seen.add(key)
+        throws = [x for x in f.walk() if _is_validation_throw(f, x)]
+        if not throws:
+            continue
+        tids = set(t["i"] for t in throws)   # the throwing nodes themselves (default-argument sub-trees are shared)
+        writes = []
+        for wn, r, how in E.writes(f):
+            if r[0] != "this":
+                continue
+            if f.within(wn, throws[0]) or any(f.within(wn, t) for t in throws):
+                continue
+            writes.append((wn, r, how))
+        n += 1
+        inst = re.sub(r"<.*?>(?=::)", "", F.strip_ns(f.sig()))
+        bad = None
+        ex = flow.Explorer(f, exempt_throw=False)
+        for wn, r, how in writes:
+            pos = f.cfg_pos(wn)
+            if pos is None:
+                continue
+            p = ex.find_path(pos, lambda x: False, lambda x: x["i"] in tids)
+            if p is not None:
+                bad = (wn, r, how, p)
+                break
+        if bad is None:
+            ctx.ok(rid, inst, f.where())
+        else:
+            wn, r, how, p = bad
+            last = p[-1][1][-1] if p[-1][1] else "?"
+            ctx.violation(rid, inst, f.where(wn), "the receiver is already modified (%s on %s) when the argument check at line %s rejects the call: the object does not keep its value" % (
+                how, ".".join(r[1:]) or "*this", last), {"path": p})
+    ctx.floor(rid, n, 150, "validating public mutators")
+
+
 def run(ctx):
     ctx.explanation = ("C14 structural clauses: validation precedes mutation, allocations are owned before anything can throw, every cycle of the "
                        "checkpointed loops passes an abandonment checkpoint; decides these ordering/ownership clauses, not leak-freedom for every failing allocation")
@@ -471,5 +543,8 @@ def run(ctx):
                        "may-throw inference is a may-analysis (over-approximation)"]
     r14_3(ctx)
     r14_2(ctx)
+    r14_1(ctx)
+
+
 
 
